@@ -15,7 +15,8 @@
     [decode] (Sample/Decode.v) is the model of Gen.decode; [act_keys_distinct fb]
     (Sample/DecodeWf.v, executable): the dict keys (names) of the factors of
     act_design are pairwise distinct - the hypothesis forced by the name-keyed dict;
-    the pinned constructors do not enforce it (finding "decode:duplicate-name"). *)
+    the pinned constructors did not enforce it (finding "decode:duplicate-name",
+    repaired in /repo commit ba3bcfe: equal names are now rejected in the whole design). *)
 From Coq Require Import ZArith List Arith String.
 From SP Require Import Design.Flat Design.Layout Design.LayoutWf Design.LayoutProofs Design.LayoutExamples.
 From SP Require Import Sample.Decode Sample.DecodeWf Sample.DecodeProofs.
